@@ -70,8 +70,11 @@ class _PE:
         self.reads: set[str] = set()
         self.writes: set[str] = set()
         self.other_flags: set[str] = set()
+        self.env: dict[str, bool] = {}      # locals known to hold a boolean that follows from the fixed flag
 
     def ev(self, e: ast.AST) -> Optional[bool]:
+        if isinstance(e, ast.Name) and isinstance(e.ctx, ast.Load) and e.id in self.env:
+            return self.env[e.id]
         if isinstance(e, ast.Attribute) and u(e.value) == "self":
             if e.attr == self.flag:
                 return self.val
@@ -110,7 +113,12 @@ class _PE:
                     if self.run(s.orelse):
                         return True
                 else:
-                    a, b = self.run(s.body), self.run(s.orelse)
+                    env0 = dict(self.env)
+                    a = self.run(s.body)
+                    env_a, self.env = self.env, dict(env0)
+                    b = self.run(s.orelse)
+                    self.env = {k_: v_ for k_, v_ in self.env.items() if env_a.get(k_) is v_} if not (a or b) else (
+                        self.env if a else env_a)
                     if a and b:
                         return True
             elif isinstance(s, ast.Return):
@@ -120,8 +128,15 @@ class _PE:
             elif isinstance(s, ast.Raise):
                 return True
             elif isinstance(s, (ast.Assign, ast.AnnAssign, ast.AugAssign)):
+                known = None
                 if getattr(s, "value", None) is not None:
-                    self.ev(s.value)
+                    known = self.ev(s.value)
+                for t in assigned_targets(s):
+                    if isinstance(t, ast.Name):
+                        if known is not None and isinstance(s, (ast.Assign, ast.AnnAssign)) and len(assigned_targets(s)) == 1:
+                            self.env[t.id] = known
+                        else:
+                            self.env.pop(t.id, None)
                 for t in assigned_targets(s):
                     if isinstance(t, ast.Attribute) and u(t.value) == "self" and SLOT_RE.match(t.attr):
                         self.writes.add(t.attr)
@@ -468,6 +483,9 @@ def _r3(ctx: Ctx, mod, meths: dict) -> None:
             elts = n.args[0].elts
             kinds = []
             for e in elts:
+                if isinstance(e, ast.Name) and e.id != "non_mortar_size":
+                    re_ = f.resolve(e, f.stmt_of(n))
+                    e = re_[0] if len(re_) == 1 else e
                 if "non_mortar_size" in names_in(e):
                     kinds.append("non")
                 elif f"{iv}.num_cells" in u(e):
@@ -478,7 +496,7 @@ def _r3(ctx: Ctx, mod, meths: dict) -> None:
                     kinds.append("?")
             if "non" not in kinds:
                 continue
-            pol = guard_polarity(f, f.stmt_of(n), "to_mortar")
+            pol = guard_polarity(f, n, "to_mortar")
             if pol is None or "?" in kinds:
                 raise Undecided(f"{GO}:{q}: empty block `{u(n)}` not classifiable")
             other = [k for k in kinds if k != "non"][0]
@@ -491,9 +509,22 @@ def _r3(ctx: Ctx, mod, meths: dict) -> None:
     sizes = [s for s in stmts_local(fn) if isinstance(s, ast.Assign) and u(s.targets[0]) == "non_mortar_size"]
     if not sizes:
         raise AnchorError(f"{GO}:{q}: non_mortar_size not computed")
+    size_cases: list[tuple[ast.stmt, Optional[bool], str]] = []
     for s in sizes:
-        pol = guard_polarity(f, s, "is_primary")
-        txt = u(s.value)
+        inner_names = [n for n in ast.walk(s.value) if isinstance(n, ast.Name) and isinstance(n.ctx, ast.Load)]
+        expanded = False
+        for n in inner_names:
+            ds, entry = f.reaching(n.id, s)
+            ds = [d for d in ds if d[1] == "assign"]
+            if ds and not entry and all(guard_polarity(f, d[0], "is_primary") is not None for d in ds):
+                from ..core.astutil import subst
+                for d in ds:
+                    size_cases.append((s, guard_polarity(f, d[0], "is_primary"), u(subst(s.value, {n.id: d[2]}))))
+                expanded = True
+                break
+        if not expanded:
+            size_cases.append((s, guard_polarity(f, s, "is_primary"), u(s.value)))
+    for s, pol, txt in size_cases:
         if pol is True and ".num_faces" in txt and face_extra and not any(
                 "codim" in u(p.test) for p, _ in f.enclosing(s, (ast.If,))):
             ctx.note(f"observation (reported, not armed): {q}: for is_primary the non-mortar size counts faces unconditionally, "
@@ -592,8 +623,14 @@ def _r4(ctx: Ctx, mod) -> None:
                 raise Undecided(f"{GO}:{q}: assembly `{u(a)[:70]}` not classifiable")
             gen = comp.generators[0]
             base, tr = _is_transposed(elt)
-            if isinstance(base, ast.Subscript) and isinstance(base.value, ast.Name):
-                rb = f.resolve(base.value, f.stmt_of(bm[0]))
+            if isinstance(base, ast.Subscript) and isinstance(base.value, (ast.Name, ast.Call)):
+                rb = f.resolve(base.value, f.stmt_of(bm[0])) if isinstance(base.value, ast.Name) else [base.value]
+                if len(rb) == 1 and isinstance(rb[0], ast.Call) and isinstance(rb[0].func, ast.Attribute) \
+                        and u(rb[0].func.value) == "self" and rb[0].func.attr in meths and not rb[0].args:
+                    # a getter that returns the stored map
+                    hr = [r_.value for r_ in stmts_local(meths[rb[0].func.attr]) if isinstance(r_, ast.Return) and r_.value is not None]
+                    if hr and all(isinstance(x, ast.Attribute) and u(x.value) == "self" for x in hr) and len({u(x) for x in hr}) == 1:
+                        rb = [hr[0]]
                 if len(rb) == 1 and isinstance(rb[0], ast.Attribute):
                     base = ast.Subscript(value=rb[0], slice=base.slice, ctx=ast.Load())
             if not (isinstance(base, ast.Subscript) and isinstance(base.value, ast.Attribute) and u(base.value.value) == "self"):
@@ -669,8 +706,20 @@ def _r5(ctx: Ctx, mod) -> None:
         st = stores[0]
         D = st.targets[0].value.id
         v = st.value
-        while isinstance(v, ast.Call) and isinstance(v.func, ast.Attribute) and v.func.attr in ("tocsc", "tocsr", "tocoo"):
-            v = v.func.value
+        for _ in range(4):
+            if isinstance(v, ast.Call) and isinstance(v.func, ast.Attribute) and v.func.attr in ("tocsc", "tocsr", "tocoo"):
+                v = v.func.value
+            elif isinstance(v, ast.Name):
+                rv = f.resolve(v, st)
+                if len(rv) != 1 or rv[0] is v:
+                    break
+                v = rv[0]
+            else:
+                break
+        if isinstance(v, ast.Call) and v.args and isinstance(v.args[0], ast.Name):
+            ra = f.resolve(v.args[0], st)
+            if len(ra) == 1:
+                v.args[0] = ra[0]
         if not (isinstance(v, ast.Call) and call_name(v) in ("coo_matrix", "csc_matrix", "csr_matrix") and v.args
                 and isinstance(v.args[0], ast.Tuple) and len(v.args[0].elts) == 2
                 and isinstance(v.args[0].elts[1], ast.Tuple) and len(v.args[0].elts[1].elts) == 2):
@@ -692,6 +741,7 @@ def _r5(ctx: Ctx, mod) -> None:
         # size of one block
         sz_ok = isinstance(sz_e, ast.BinOp) and isinstance(sz_e.op, ast.Mult) and \
             {u(sz_e.left), u(sz_e.right)} == {f"{sd}.{attr}", dim}
+        cols = inl(cols) if isinstance(cols, ast.Name) else cols
         cols_ok = isinstance(cols, ast.Call) and call_name(cols) == "arange" and len(cols.args) == 1 and \
             u(inl(cols.args[0])) == u(sz_e)
         ctx.check("R5", sz_ok and cols_ok and u(st.targets[0].slice) == sd, mod, name, st,
